@@ -224,6 +224,39 @@ def fingerprint(ecu):
     return hash(_fp(ecu, set()))
 
 
+def _norm(o, seen, depth=0):
+    """structural image of a protocol object for the return-to-fresh comparison: callables, threads, locks and
+    queues are not state of the protocol and are skipped; proxies are compared by term identity"""
+    t = type(o)
+    if t is int or t is str or t is bool or o is None or t is float or t is Fraction:
+        return o
+    if t is symx.SInt or t is symx.SBool:
+        return ('z', o.e.get_id())
+    if t is STime:
+        return ('t', o.c) if o.c is not None else ('tz', o.e.get_id())
+    if callable(o):
+        return 'callable'
+    i = id(o)
+    if i in seen or depth > 8:
+        return 'ref'
+    if t is dict:
+        seen.add(i)
+        return ('d',) + tuple((k if type(k) in (int, str) else 'k', _norm(v, seen, depth + 1)) for k, v in o.items())
+    if t is list or t is tuple or t is bytearray:
+        seen.add(i)
+        return ('l',) + tuple(_norm(x, seen, depth + 1) for x in o)
+    mod = getattr(t, '__module__', '') or ''
+    if mod.startswith('j1939') and hasattr(o, '__dict__'):
+        seen.add(i)
+        return ('o', t.__name__) + tuple((k, _norm(v, seen, depth + 1)) for k, v in sorted(o.__dict__.items()) if k not in ('_ecu',))
+    return 'opaque:' + t.__name__
+
+
+def protocol_state(ecu):
+    """the data link layer object (session tables, pools, configuration) of an ECU, normalised"""
+    return _norm(ecu.j1939_dll, set())
+
+
 # --------------------------------------------------------------------------- nodes
 class Node:
     def __init__(self, world, name, dll='j1939-21', **kw):
